@@ -183,7 +183,13 @@ impl<T: FloatT> VectorMath<T> for [T] {
     fn axpby(&mut self, a: T, x: &[T], b: T) -> &mut Self {
         assert_eq!(self.len(), x.len());
 
-        zip(&mut *self, x).for_each(|(y, x)| *y = a * (*x) + b * (*y));
+        //self need not be set on input when b == 0: it is used that way
+        //as an assignment, and stale non-finite entries must not survive
+        if b == T::zero() {
+            zip(&mut *self, x).for_each(|(y, x)| *y = a * (*x));
+        } else {
+            zip(&mut *self, x).for_each(|(y, x)| *y = a * (*x) + b * (*y));
+        }
         self
     }
 
